@@ -34,7 +34,7 @@ Lemma spec_step_incl : forall sp w sp', (forall id p, w <> SEntry id p) ->
   spec_step sp w = Some sp' -> incl (sp_entries sp') (sp_entries sp).
 Proof.
   intros sp w sp' Hw H. destruct w as [v|id p|i|u|id|u]; cbn [spec_step] in H.
-  - destruct (opair_leb (sp_vote sp) (Some v)); inversion H. apply incl_refl.
+  - destruct (ovote_accepts (sp_vote sp) v); inversion H. apply incl_refl.
   - exfalso. apply (Hw id p). reflexivity.
   - destruct (N.eqb i (next_index (sp_purged sp)) || (negb (N.eqb i 0) && sp_has_index sp (i - 1)));
       inversion H. cbn [sp_entries]. intros x Hx. apply filter_In in Hx. apply Hx.
